@@ -45,17 +45,21 @@ def project_memb(raw, nthreads):
     out.append('.')
     return out
 
-def project_mb(raw, nthreads):
+def project_mb(raw, nthreads, dyn_initial=None):
     """implementation trace -> action lines of the mb-flavor model (Gp/GpMbExec.v): as project_memb, plus N = the fence that ends an outermost
     rcu_read_lock, and M = every fence of the grace-period leader (local: nobody else's buffer is drained)"""
     out = ['T ' + ' '.join(str(i) for i in range(nthreads))]
-    insync = {}; await_fence = {}; inlock = {}
+    insync = {}; await_fence = {}; inlock = {}; regop = {}
+    if dyn_initial is not None: out += ['G %s' % t for t in dyn_initial]       # threads registered (in a quiet section) before the schedule starts
     for p in events(raw):
         t, k = p[0], p[1]; loc = p[2] if len(p) > 2 else ''
         if k == 'call' and p[2] == 'sync': insync[t] = 'called'
         elif k == 'ret' and p[2] == 'sync': insync[t] = None
         elif k == 'call' and p[2] == 'lock': inlock[t] = (p[3] == '0')
         elif k == 'ret' and p[2] == 'lock': inlock[t] = False
+        elif dyn_initial is not None and k == 'call' and p[2] in ('register', 'unregister'): regop[t] = p[2]
+        elif dyn_initial is not None and k == 'ret' and p[2] in ('register', 'unregister'): regop[t] = None
+        elif dyn_initial is not None and k == 'unlock' and loc == 'reg_lock+0' and regop.get(t): out.append(('G %s' if regop[t] == 'register' else 'U %s') % t)      # the registry changed under the mutex that is released here
         elif k == 'load' and loc == 'gp.ctr+0' and not insync.get(t): out.append('L %s %d' % (t, wd(p[5])[0]))
         elif k == 'store' and loc == 'rd%s+0' % t:
             out.append('S %s %d %d' % ((t,) + wd(p[3][2:])))
